@@ -238,6 +238,22 @@ def run(repo: Repo, chk: Check, thorough: bool = False) -> None:
                'quotes is passed on raw, quotes included, with the other', f'{cpm.relpath}:{v.lineno}')
     if n_rx < 2:
         raise AnalysisError(f'R20.5: {n_rx} two-quote regexes found in _configparser (_QUOTED_STR_REGEX, _TRIPLE_QUOTED_STR_REGEX confirmed)')
+    # configparser's default BasicInterpolation gives `%` a meaning (`%(key)s`, `%%`): a value with a percent sign - any percent-encoded URL -
+    # is rejected or rewritten, while the command line and TOML take it literally
+    n_cp = 0
+    for f in repo.funcs.values():
+        if f.mod is not cpm:
+            continue
+        for c in calls_in(f, lambda c: call_name(c) in ('ConfigParser', 'RawConfigParser', 'SafeConfigParser') and 'configparser' in norm(c.func)):
+            n_cp += 1
+            interp = next((k.value for k in c.keywords if k.arg == 'interpolation'), None)
+            oki = call_name(c) == 'RawConfigParser' or (isinstance(interp, ast.Constant) and interp.value is None)
+            chk.ob('R20.5', f'{f.qn} :: {norm(c.func)}(...) takes `%` literally', oki,
+                   'interpolation disabled' if oki else
+                   f'`{norm(c)[:60]}` keeps the default interpolation: `project-url = https://example.org/My%20Project/` aborts with an '
+                   "InterpolationSyntaxError, `a%%b` is read back as `a%b`, `%(docformat)s` is replaced by another key's value", repo.loc(f.mod, c))
+    if n_cp < 1:
+        raise AnalysisError('R20.5: no configparser.ConfigParser(...) construction found in _configparser')
     chk.ob('R20.5', f'{CP}.unquote_str :: evaluation errors become ValueError', ok, 'literal_eval in try -> ValueError', us.loc)
     chk.require('R20.5', 4)
 
